@@ -168,7 +168,9 @@ class StructGen:
 
     def arg_kind(self, rng, op):
         """Hand the sequence argument over as some other kind of iterable."""
-        if rng.random() < self.cfg.get("p_arg_kind", 0.35):
+        if self.cfg.get("raising_iterables") and rng.random() < 0.12:
+            op["as"] = f"gen_raises:{rng.choice([0, 1, 1, 2])}"
+        elif rng.random() < self.cfg.get("p_arg_kind", 0.35):
             op["as"] = rng.choice(self.ARG_KINDS)
 
     def edge_class(self, rng):
